@@ -46,7 +46,10 @@ SNIPPETS = {
     'range-loop': 'for r_i in 0 ..= 2 do print(r_i)',
 }
 USER_IMPORTS = ['import math', 'import math as m', 'from math import floor', 'import os', 'from os import path as p', 'import sys as system', 'from typing import List',
-                'import json, re', 'from collections import OrderedDict as OD']
+                'import json, re', 'from collections import OrderedDict as OD',
+                # imports from the very modules the generator imports from: a generator that merges its imports into the user's must keep aliases and names
+                'from typing import TypeVar as TV', 'from typing import TypeVar, Generic', 'from abc import ABC as AbstractBase', 'from typing import NamedTuple as NT, TypeVar as TV2',
+                'import typing', 'import abc as abcmod']
 
 
 def judge(w, src, user_imports, part, origin, flags=(True, False), execute=True):
